@@ -1174,6 +1174,12 @@ func nilSafeMethod(f *ssa.Function) bool {
 func normExpr(info *types.Info, e ast.Expr) string {
 	var cp func(e ast.Expr) ast.Expr
 	cp = func(e ast.Expr) ast.Expr {
+		// constant sub-expressions are printed by value (a literal replaced by a named constant is the same site)
+		if tv, ok := info.Types[e]; ok && tv.Value != nil {
+			if _, isLit := e.(*ast.BasicLit); !isLit {
+				return &ast.BasicLit{Kind: token.INT, Value: tv.Value.ExactString()}
+			}
+		}
 		switch x := e.(type) {
 		case *ast.Ident:
 			if v, ok := info.Uses[x].(*types.Var); ok && !v.IsField() && v.Parent() != nil && v.Parent() != v.Pkg().Scope() {
